@@ -413,6 +413,12 @@ fn run_case(ctx: &Ctx, c: &Case, dir: &std::path::Path, model: &mut Model, rep: 
     }
     let out_file = dir.join("out.json");
     let _ = std::fs::remove_file(&out_file);
+    // every other -o run writes to a file that already holds the (much longer) object of an earlier run
+    let previous = format!("{{\"previous_run\":\"{}\",\"n\":[{}]}}", "quarterly totals ".repeat(40), (0..200).map(|i| i.to_string()).collect::<Vec<_>>().join(","));
+    let prefilled = matches!(c.mode, Mode::OutFileFile | Mode::OutFileInline) && (c.script.lines.len() + c.flags.len()) % 2 == 0;
+    if prefilled {
+        let _ = std::fs::write(&out_file, &previous);
+    }
     let prog_file = dir.join("script.blots");
     let mut stdin_bytes: Option<Vec<u8>> = c.stdin_src.as_ref().map(|s| tv_jt(s).text().into_bytes());
     match c.mode {
@@ -446,6 +452,8 @@ fn run_case(ctx: &Ctx, c: &Case, dir: &std::path::Path, model: &mut Model, rep: 
         _ => None,
     };
     let file_text = if to_file { std::fs::read_to_string(&out_file).ok() } else { None };
+    // a file still holding exactly the earlier run's object was not written by this run
+    let file_text = if prefilled && file_text.as_deref() == Some(previous.as_str()) { None } else { file_text };
     let file_obj = file_text.as_deref().and_then(jt::parse).filter(|j| matches!(j, JT::Obj(_)));
     let _ = std::fs::remove_file(&out_file);
     let expect_ok = c.script.ok();
